@@ -5126,12 +5126,12 @@ func reduceBinaryExprDurationLHS(op Token, lhs *DurationLiteral, rhs Expr, loc *
 	case *NumberLiteral:
 		switch op {
 		case MUL:
-			return &DurationLiteral{Val: lhs.Val * time.Duration(rhs.Val)}
+			return &DurationLiteral{Val: time.Duration(float64(lhs.Val) * rhs.Val)}
 		case DIV:
-			if time.Duration(rhs.Val) == 0 {
+			if rhs.Val == 0 {
 				return &DurationLiteral{Val: 0}
 			}
-			return &DurationLiteral{Val: lhs.Val / time.Duration(rhs.Val)}
+			return &DurationLiteral{Val: time.Duration(float64(lhs.Val) / rhs.Val)}
 		}
 	case *IntegerLiteral:
 		switch op {
